@@ -134,6 +134,9 @@ pub struct ConcCase {
     pub final_probes: Vec<(usize, usize, u8)>,
     /// C21: after the base run, re-execute it with a solo window at every (step, thread)
     pub solo_sweep: bool,
+    /// strategy that takes over when the explicit schedule is used up (evolved cases:
+    /// recorded prefix + seeded tail); None = stay on the current thread
+    pub tail: Option<Strategy>,
 }
 
 fn strategy_to_json(s: &Strategy) -> J {
@@ -251,6 +254,7 @@ impl ConcCase {
                 ),
             )
             .set("solo_sweep", self.solo_sweep)
+            .set("tail_strategy", self.tail.as_ref().map(strategy_to_json))
     }
     pub fn from_json(j: &J) -> Option<Self> {
         let pair = |e: &J| -> Option<(u64, u64)> {
@@ -293,6 +297,7 @@ impl ConcCase {
                 })
                 .collect(),
             solo_sweep: j.get("solo_sweep").and_then(J::b).unwrap_or(false),
+            tail: j.get("tail_strategy").filter(|t| t.get("kind").is_some()).map(strategy_from_json),
         })
     }
 }
@@ -714,6 +719,7 @@ impl ConcRunner<'_> {
         if !case.schedule.is_empty() {
             world.strat = Strategy::Replay;
             world.replay = case.schedule.clone();
+            world.replay_then = case.tail.clone();
         } else {
             world.strat = case.strategy.clone();
         }
@@ -1368,5 +1374,163 @@ pub fn gen_case(rng: &mut Rng, kind: &str, o: &GenOpts) -> ConcCase {
         solo_sweep: o.solo_points > 0 && total_ops <= 5 && rng.chance(1, if o.thorough { 60 } else { 600 }),
         solo,
         final_probes,
+        tail: None,
+    }
+}
+
+// ------------------------------------------------------------------------------------------
+// KE: evolved cases. Every logical shard keeps a corpus of cases that reached metadata states the
+// shard had not seen before, and derives new cases from them (recorded schedule prefix + seeded
+// tail, an injected preemption, changed operations, changed faults). The sequence of cases of a
+// shard is a pure function of (VERIF_SEED, shard), independent of the number of worker processes.
+
+pub const KE_SHARDS: u64 = 64;
+
+#[derive(Default)]
+pub struct Evolve {
+    shards: std::collections::BTreeMap<u64, (Vec<ConcCase>, std::collections::BTreeSet<u64>)>,
+    pub fresh: u64,
+    pub mutated: u64,
+    pub kept: u64,
+}
+
+/// Order in which a worker visits the run indices of an evolving family
+pub fn ke_indices(total: u64, shard: u64, nshards: u64) -> Vec<u64> {
+    let mut v = Vec::new();
+    let mut s = shard;
+    while s < KE_SHARDS {
+        let mut g = 0;
+        while g * KE_SHARDS + s < total {
+            v.push(g * KE_SHARDS + s);
+            g += 1;
+        }
+        s += nshards;
+    }
+    v
+}
+
+fn rand_op(rng: &mut Rng, cfg: &Config) -> SOp {
+    let (class, slot) = gen_class_slot(rng, cfg, false);
+    match rng.weighted(&[8, 5, 1, 1]) {
+        0 => {
+            let order = *rng.pick(&[0usize, 0, 0, 1, 3, 5, 6, 7, 8, 9, 10]);
+            let target = if rng.chance(1, 4) && (1usize << order) <= cfg.frames {
+                Some(rng.below(cfg.frames >> order) << order)
+            } else {
+                None
+            };
+            SOp::Get { order, class, slot, target }
+        }
+        1 => SOp::PutHeld {
+            k: rng.below(4),
+            sub: if rng.chance(1, 4) { Some((rng.below(3), rng.below(8))) } else { None },
+            class,
+            slot,
+        },
+        2 => SOp::Drain,
+        _ => SOp::Reclass {
+            id: if rng.chance(1, 2) { Some(rng.below(cfg.trees().max(1))) } else { None },
+            mclass: None,
+            mfree: *rng.pick(&[0, 1, TREE_FRAMES]),
+            class: rng.below(cfg.slots.len()) as u8,
+        },
+    }
+}
+
+impl Evolve {
+    pub fn next(&mut self, index: u64, seed: u64, o: &GenOpts) -> ConcCase {
+        let mut rng = Rng::new(seed);
+        let entry = self.shards.entry(index % KE_SHARDS).or_default();
+        if entry.0.is_empty() || rng.chance(1, 4) {
+            self.fresh += 1;
+            let fam = *rng.pick(&["K1", "K2", "K3", "K4", "K5", "K6", "K7", "K8"]);
+            return gen_case(&mut rng, fam, o);
+        }
+        self.mutated += 1;
+        let mut c = entry.0[rng.below(entry.0.len())].clone();
+        c.kind = "KE".to_string();
+        c.sched_seed = rng.next();
+        let tails = [Strategy::Uniform, Strategy::Burst { den: 6 }, Strategy::AfterWrite { den: 8 }];
+        c.tail = Some(rng.pick(&tails).clone());
+        c.solo.clear();
+        c.solo_sweep = false;
+        match rng.below(5) {
+            // recorded prefix, seeded tail
+            0 | 1 => {
+                let cut = rng.below(c.schedule.len() + 1);
+                c.schedule.truncate(cut);
+            }
+            // inject one preemption, then a seeded tail
+            2 => {
+                if !c.schedule.is_empty() {
+                    let p = rng.below(c.schedule.len());
+                    let n = c.programs.len() as u8;
+                    c.schedule[p] = (c.schedule[p] + 1 + rng.below(n.max(2) as usize - 1) as u8) % n.max(1);
+                    c.schedule.truncate(p + 1);
+                }
+            }
+            // change the programs: append / remove / replace an operation
+            3 => {
+                let t = rng.below(c.programs.len());
+                let op = rand_op(&mut rng, &c.cfg);
+                let p = &mut c.programs[t];
+                match rng.below(3) {
+                    0 => p.push(op),
+                    1 if !p.is_empty() => {
+                        let i = rng.below(p.len());
+                        p.remove(i);
+                    }
+                    _ if !p.is_empty() => {
+                        let i = rng.below(p.len());
+                        p[i] = op;
+                    }
+                    _ => p.push(op),
+                }
+                let cut = rng.below(c.schedule.len() + 1);
+                c.schedule.truncate(cut);
+            }
+            // change the faults: fresh strategy, spurious CAS failures on or off
+            _ => {
+                c.schedule.clear();
+                c.tail = None;
+                let total: usize = c.programs.iter().map(Vec::len).sum();
+                c.strategy = gen_strategy(&mut rng, c.programs.len(), 22 * total as u64, o.stall_bias);
+                c.casfail_at = None;
+                c.casfail_den = if rng.chance(1, 2) { rng.range(3, 12) } else { 0 };
+            }
+        }
+        if c.schedule.is_empty() && c.tail.is_some() {
+            // nothing left of the prefix: the tail is the strategy
+            c.strategy = c.tail.take().unwrap();
+        }
+        if o.solo_points > 0 {
+            let total: usize = c.programs.iter().map(Vec::len).sum();
+            for _ in 0..o.solo_points {
+                c.solo.push((rng.below(22 * total.max(1)) as u64, rng.below(c.programs.len())));
+            }
+            c.solo.sort();
+        }
+        c
+    }
+    /// `case` as it is after its run (with the recorded schedule and fault log)
+    pub fn feedback(&mut self, index: u64, case: &ConcCase, states: &[u64]) {
+        let entry = self.shards.entry(index % KE_SHARDS).or_default();
+        let mut new = 0;
+        for s in states {
+            if entry.1.len() < 200_000 && entry.1.insert(*s) {
+                new += 1;
+            }
+        }
+        if new > 0 {
+            self.kept += 1;
+            let mut c = case.clone();
+            c.tail = None;
+            if entry.0.len() < 128 {
+                entry.0.push(c);
+            } else {
+                let i = (index / KE_SHARDS) as usize % entry.0.len();
+                entry.0[i] = c;
+            }
+        }
     }
 }
